@@ -1364,6 +1364,11 @@ Lemma ni_cumulant : forall mc g pw s cio, ni (cumulant mc g pw s cio).
 Proof.
   intros; unfold cumulant; pose proof ni_decay_amplitudes; pose proof ni_get_ff; pose proof ni_integrate; ni_auto.
 Qed.
+Lemma ni_clear_attrs : forall xs, ni (seq_all clear_attr xs).
+Proof.
+  intros xs. apply ni_seq_all. intros x. unfold clear_attr.
+  destruct (attr_target_of x) as [[s | ] | ]; [apply ni_setslot | apply ni_new_dict | apply ni_ret].
+Qed.
 Lemma ni_run_op : forall mc o, ni (run_op mc o).
 Proof.
   intros mc o. destruct o; cbn [run_op]; unfold noret, withret, error_transfer_matrix, infidelity_derivative,
@@ -1371,7 +1376,7 @@ Proof.
   pose proof ni_get_cm; pose proof ni_cache_cm; pose proof ni_get_pccm; pose proof ni_get_ff; pose proof ni_cache_ff;
   pose proof ni_get_pcff; pose proof ni_get_deriv; pose proof ni_get_total_phases; pose proof ni_cache_total_phases;
   pose proof ni_diagonalize; pose proof ni_lazy_prop; pose proof ni_tpl_prop; pose proof ni_t_prop; pose proof ni_tau_prop;
-  pose proof ni_infidelity; pose proof ni_decay_amplitudes; pose proof ni_cumulant; ni_auto.
+  pose proof ni_infidelity; pose proof ni_decay_amplitudes; pose proof ni_cumulant; pose proof ni_clear_attrs; ni_auto.
 Qed.
 
 (* ================================================================== the store *)
